@@ -225,6 +225,10 @@ def remove_suffix(v, rest):
     return v[:len(v) - len(rest)] if v.endswith(rest) else v
 
 
+def stack_in_scope(target, variant, stack):
+    raise NotImplementedError("abstract predicate: no native meaning")
+
+
 def is_prefix_list(a, b):
     return len(a) <= len(b) and all(x is y for x, y in zip(a, b))
 
